@@ -70,7 +70,7 @@ def w_paths(tasks):
 
     def run_path(edges):
         nonlocal n, div
-        w = decorate(World.build(states[edges[0][0]], ))
+        w = decorate(World.build(states[edges[0][0]], ids=(lambda j: "one-id") if G.get("same_ids") else None))
         ops = []
         for (fk, op, tk) in edges:
             ops.append(op)
@@ -104,7 +104,7 @@ def w_expand(items):
         # current abstract key
         key = path[-1][2] if path else ik
         for (op, tk) in graph[key]:
-            w = decorate(World.build(states[ik]))
+            w = decorate(World.build(states[ik], ids=(lambda j: "one-id") if G.get("same_ids") else None))
             bad = None
             for (fk, o, t2) in path:
                 v, det = step(w, o, states[fk], states[t2])
@@ -251,15 +251,18 @@ def run(rep, tier, seed):
             raise MachineryError("MC_Ns4xy: the specification violates its own properties:\n" + r4.out[-2000:])
         rep.add_tlc(r4, "MC_Ns4xy.cfg (Frame, NsEffect only)")
     nP = applied = nkeys = 0
-    plan = [(c, d, k, None) for (c, d, k) in plan] + [("MC_Ns3x.cfg", True, 4000, "x")]      # once more with every node's own prefix field set to x
+    plan = [(c, d, k, None) for (c, d, k) in plan] + [("MC_Ns3x.cfg", True, 4000, "x"),       # once more with every node's own prefix field set to x
+                                                      ("MC_Ns3xy.cfg" if tier == "thorough" else "MC_Ns3x.cfg", True, 4000, "ids")]     # and with all nodes constructed with ONE id
     for cfg, do_paths, cap, node_prefix in plan:
-        G["node_prefix"] = node_prefix
-        a1, a2, a3 = explore(rep, cfg, do_paths, cap, lambda key, det, replay: report(key + (":nodes-carry-prefix" if G.get("node_prefix") else ""), det, replay))
+        G["node_prefix"] = node_prefix if node_prefix != "ids" else None
+        G["same_ids"] = node_prefix == "ids"
+        a1, a2, a3 = explore(rep, cfg, do_paths, cap, lambda key, det, replay: report(key + (":nodes-carry-prefix" if G.get("node_prefix") else "") + (":nodes-share-an-id" if G.get("same_ids") else ""), det, replay))
         nP += a1
         applied += a2
         nkeys += a3
 
     G["node_prefix"] = None
+    G["same_ids"] = False
     # (c) code -> spec
     ntr, nst = (80, 120) if tier == "quick" else (800, 250)
     rnd = random.Random(seed)
